@@ -259,7 +259,42 @@ def obligations(c):
     return out
 
 
+def sweep_obligations(c):
+    """black-box companion for sweeps of several makers inside ONE call (bounded unrolling, no cut): a maker must not trade
+    twice in a row while another displaying resting order has not traded yet in this call (it has to go to the back when
+    it is replenished) - unless an older ticket of its id was already queued (recorded deviation)"""
+    h, L = c.h, c.L
+    p = c.params[0]
+    rec = p['rec']
+    if rec['ret'] is None:
+        return []
+    pre = h.level_parts(rec['before'])
+    mr = dict(zip(L.structs['MatchResult'], rec['ret']))
+    txs = mr['transactions'][0]
+    names = L.structs['Transaction']
+    T = [(S.Ult(S.bv(i, 64), txs.length), dict(zip(names, t))) for i, t in enumerate(txs.cells)]
+    bad = []
+    for i in range(len(T) - 1):
+        (v1, t1), (v2, t2) = T[i], T[i + 1]
+        x = t1['maker_order_id']
+        again = S.And(v1, v2, veq(x, t2['maker_order_id']))
+        ntick = [S.And(pr, S.Not(pp), veq(idv, x)) for _, pr, pp, idv in pre['tickets']]
+        dup = S.Or([S.And(ntick[a], ntick[b]) for a in range(len(ntick)) for b in range(a)])
+        waiting = []
+        for occ, key, o in pre['resting']:
+            traded = S.Or([S.And(v, veq(t['maker_order_id'], key)) for v, t in T[:i + 1]])
+            waiting.append(S.And(occ, S.Not(veq(key, x)), S.Not(S.Eq(OrderView(L, o).displayed, S.bv(0, 64))), S.Not(traded)))
+        bad.append(S.And(again, S.Not(dup), S.Or(waiting)))
+    return [{'name': 'M(sweep): no maker trades twice in a row while another displaying order has not traded yet in this call',
+             'kind': 'obligation', 'goal': S.And(p['live'], S.Or(bad))},
+            {'name': 'reach: a sweep in which a replenished maker trades twice', 'kind': 'witness', 'required': True,
+             'goal': S.And(p['live'], S.Or([S.And(T[i][0], veq(T[i][1]['maker_order_id'], T[j][1]['maker_order_id']))
+                                            for i in range(len(T)) for j in range(i)]))}]
+
+
 def prop(c):
+    if c.cube.get('family') == 'sweep':
+        return sweep_obligations(c) + [reach_witness(c)]
     return obligations(c) + [reach_witness(c)]
 
 
@@ -269,6 +304,9 @@ def cubes(tier):
     for op in 'ARQCPBXMI':
         out.append({'seq': op, 'pre': {'N': n, 'K': k}, 'cut_after': 1, 'pop_unwind': k + 2, 'qty_mode': 'full', 'price': 1,
                     'positive_quantities': False, 'native': op != 'I', 'family': 'inductive', 'default_unwind': 8})
+    L_ = 3 if tier == 'quick' else 4
+    out.append({'seq': 'M', 'pre': {'N': n, 'K': k}, 'match_unwind': L_, 'pop_unwind': k + L_ + 2, 'qty_mode': 'full', 'price': 1,
+                'family': 'sweep', 'default_unwind': 8})
     return out
 
 
